@@ -587,9 +587,9 @@ class HookSpy:
 
     def __enter__(self):
         G, calls = self.G, self.calls
-        for n in ("__array_finalize__", "__reduce__", "__setstate__"):
+        for n in ("__array_finalize__", "__reduce__", "__setstate__", "__deepcopy__"):
             self.saved[n] = G.__dict__[n]
-        fin, red, sst = (self.saved[n] for n in ("__array_finalize__", "__reduce__", "__setstate__"))
+        fin, red, sst, dcp = (self.saved[n] for n in ("__array_finalize__", "__reduce__", "__setstate__", "__deepcopy__"))
 
         def __array_finalize__(self, obj):
             calls.append("finalize-none" if obj is None else "finalize")
@@ -602,7 +602,11 @@ class HookSpy:
         def __setstate__(self, state):
             calls.append("setstate")
             return sst(self, state)
-        G.__array_finalize__, G.__reduce__, G.__setstate__ = __array_finalize__, __reduce__, __setstate__
+
+        def __deepcopy__(self, memo):
+            calls.append("deepcopy")
+            return dcp(self, memo)
+        G.__array_finalize__, G.__reduce__, G.__setstate__, G.__deepcopy__ = __array_finalize__, __reduce__, __setstate__, __deepcopy__
         return self
 
     def __exit__(self, *a):
